@@ -15,6 +15,9 @@ def run(name=""):
          {"ib", "jt", "n"}),
         ("a(i) = b(j) + c", "real :: a(4), b(4), c\n integer :: i, j",
          {"b", "j", "c", "i"}),
+        ("do i = lo, hi, st\n a(idx(i)) = 1.0\n end do",
+         "real :: a(4)\n integer :: i, lo, hi, st, idx(4)",
+         {"lo", "hi", "st", "idx", "i"}),
     ]
     for stmt, decls, must_read in cases:
         code = f"subroutine s()\n {decls}\n {stmt}\nend subroutine s\n"
